@@ -67,6 +67,41 @@ struct Conc : Prop {
 		// C10: the first train and all boosters are reserved for atomicity carriers (no other writer touches them)
 		cfg::World w_events = w;
 		if (!is_c11 && !w.trains.empty()) { ids.trains.erase(ids.trains.begin()); w_events.trains.erase(w_events.trains.begin()); }
+		// C10 focus mode (one run in three): readers hammer the single getter of ONE entity while the bus keeps changing exactly that entity
+		struct Focus { int kind = -1; const cfg::Board *b = nullptr; std::string id, getter; size_t idx = 0; } fo;
+		if (!is_c11 && r.chance(350)) {
+			std::vector<Focus> c;
+			for (auto &b : w.boards) {
+				if (!b.present) continue;
+				for (size_t i = 0; i < b.periphs.size(); i++) c.push_back({0, &b, b.periphs[i].id, "peripheral_state", i});
+				for (size_t i = 0; i < b.points_board.size(); i++) c.push_back({1, &b, b.points_board[i].id, "point_state", i});
+				for (size_t i = 0; i < b.signals_board.size(); i++) c.push_back({2, &b, b.signals_board[i].id, "signal_state", i});
+				for (size_t i = 0; i < b.points_dcc.size(); i++) c.push_back({3, &b, b.points_dcc[i].id, "point_state", i});
+				for (size_t i = 0; i < b.signals_dcc.size(); i++) c.push_back({4, &b, b.signals_dcc[i].id, "signal_state", i});
+				for (size_t i = 0; i < b.segs.size(); i++) c.push_back({5, &b, b.segs[i].id, "segment_state", i});
+				for (size_t i = 0; i < b.revs.size(); i++) c.push_back({6, &b, b.revs[i].id, "reverser_state", i});
+			}
+			if (!c.empty()) fo = c[r.below(c.size())];
+		}
+		auto focus_event = [&](int t) {
+			J e = J::obj(); e.set("at_us", t); e.set("node", pc::jaddr(fo.b->addr));
+			switch (fo.kind) {
+				case 0: { auto &p = fo.b->periphs[fo.idx]; int v = r.chance(850) ? p.aspects[r.below(p.aspects.size())].value : (int) r.below(8);
+					if (r.chance(800)) { e.set("type", (int) MSG_LC_STAT); e.set("data", pc::jarr({p.port0, p.port1, v})); } else { e.set("type", (int) MSG_LC_WAIT); e.set("data", pc::jarr({p.port0, p.port1, (int) r.byte()})); } break; }
+				case 1: case 2: { auto &a = fo.kind == 1 ? fo.b->points_board[fo.idx] : fo.b->signals_board[fo.idx]; int v = r.chance(850) ? a.aspects[r.below(a.aspects.size())].value : (int) r.below(8);
+					e.set("type", r.chance(800) ? (int) MSG_ACCESSORY_STATE : (int) MSG_ACCESSORY_NOTIFY); e.set("data", pc::jarr({a.number, v, (int) r.range(1, 8), (int) r.below(4), (int) r.byte()})); break; }
+				case 3: case 4: { auto &a = fo.kind == 3 ? fo.b->points_dcc[fo.idx] : fo.b->signals_dcc[fo.idx];
+					if (r.coin()) { e.set("type", (int) MSG_CS_ACCESSORY_ACK); e.set("data", pc::jarr({a.addrl, a.addrh, (int) r.below(4)})); } else { e.set("type", (int) MSG_CS_ACCESSORY_MANUAL); e.set("data", pc::jarr({a.addrl, a.addrh, (int) r.byte()})); } break; }
+				case 5: { int sa = fo.b->segs[fo.idx].addr; uint64_t x = r.below(5);
+					if (x == 0) { e.set("type", (int) MSG_BM_OCC); e.set("data", pc::jarr({sa})); }
+					else if (x == 1) { e.set("type", (int) MSG_BM_FREE); e.set("data", pc::jarr({sa})); }
+					else if (x == 2) { e.set("type", (int) MSG_BM_CURRENT); e.set("data", pc::jarr({sa, (int) r.byte()})); }
+					else { J d = J::arr(); d.push(sa); int n = (int) r.below(4); if (n == 0) { d.push(0); d.push(0); } for (int q = 0; q < n; q++) { if (!w.trains.empty() && r.chance(700)) { auto &tr = w.trains[r.below(w.trains.size())]; d.push((int) tr.addrl); d.push((int) ((tr.addrh & 0x3F) | (r.coin() ? 0x80 : 0))); } else { d.push((int) r.byte()); d.push((int) r.below(0x28)); } } e.set("type", (int) MSG_BM_ADDRESS); e.set("data", d); }
+					break; }
+				default: { const std::string &name = fo.b->revs[fo.idx].cv; char val = "0123x"[r.below(5)]; J d = J::arr(); d.push((int) name.size()); for (char ch : name) d.push((int) (uint8_t) ch); d.push(1); d.push((int) val); e.set("type", (int) MSG_VENDOR); e.set("data", d); break; }
+			}
+			return e;
+		};
 		J se = cfg::normal_session(0, is_c11 ? (r.coin() ? 0 : (int) r.range(1, 30)) : (int) r.range(1, 30));
 		// C11: node table changes while the start-up dialogue runs
 		if (is_c11 && r.chance(350)) {
@@ -97,7 +132,8 @@ struct Conc : Prop {
 				for (int i = 0; i < no; i++) {
 					uint64_t x = r.below(100);
 					J op;
-					if (!is_c11 && !w.trains.empty() && x < 12) { op = J::obj(); op.set("op", "get"); op.set("fn", "train_state"); J sa = J::arr(); sa.push(w.trains[0].id); op.set("s", sa); op.set("i", J::arr()); }
+					if (fo.kind >= 0 && role != 2 && r.chance(role == 1 ? 800 : 400)) { op = J::obj(); op.set("op", "get"); op.set("fn", r.chance(850) ? fo.getter : std::string("state")); J sa = J::arr(); if (op.gets("fn") != "state") sa.push(fo.id); op.set("s", sa); op.set("i", J::arr()); }
+					else if (!is_c11 && !w.trains.empty() && x < 12) { op = J::obj(); op.set("op", "get"); op.set("fn", "train_state"); J sa = J::arr(); sa.push(w.trains[0].id); op.set("s", sa); op.set("i", J::arr()); }
 					else if (role == 1 ? x < 85 : role == 2 ? x < 10 : role == 3 ? x < 10 : x < 40) op = api::get_op(r, ids, w);
 					else if (role == 3 ? x < 80 : x < 50) { op = J::obj(); op.set("op", r.chance(800) ? "read" : "read_err"); }
 					else if (x < 56) { op = J::obj(); op.set("op", "flush"); }
@@ -125,6 +161,7 @@ struct Conc : Prop {
 			for (int i = 0; i < ne; i++) {
 				t += (int) r.range(0, 4000);
 				uint64_t x = r.below(100);
+				if (fo.kind >= 0 && r.chance(650)) { ev.push(focus_event(t)); continue; }
 				if (!is_c11 && x < 45 && !w.trains.empty()) {
 					// atomicity carriers: all fields of the entity derive from one counter value
 					int k = counter++ & 0x1F;
@@ -183,6 +220,7 @@ struct Conc : Prop {
 		cfg::starve_after_startup(sc, r);
 		plan.set("sched", sc);
 		if (!is_c11) plan.set("variant_hint", "asan+tsan");
+		if (fo.kind >= 0) plan.set("focus", fo.getter + ":" + fo.id);
 		return plan;
 	}
 
@@ -279,6 +317,7 @@ struct Conc : Prop {
 		f.set("shape", (long long) (pc::shape_hash(e.plan) >> 1));
 		J p = J::obj(); p.set("contract_checks", (long long) g_contract_checks); p.set("torn_read_checks", (long long) torn_checks);
 		p.set("unique_messages_read", (long long) pongs_read.size()); p.set("runs_with_overlapping_calls", overlap ? 1 : 0);
+		if (e.plan.has("focus")) p.set("focus_runs_one_entity_hammered", 1);
 		f.set("probes", p);
 	}
 };
